@@ -1078,6 +1078,11 @@ class StrategyBase(Node):
 
         The result is a MultiIndex DataFrame.
         """
+        if not self.securities:
+            # nothing was ever held: an empty list in the documented format
+            index = pd.MultiIndex.from_arrays([[], []], names=["Date", "Security"])
+            return pd.DataFrame({"price": [], "quantity": []}, index=index)
+
         # get prices for each security in the strategy & create unstacked
         # series
         prc = pd.DataFrame({x.name: x.prices for x in self.securities}).unstack()
